@@ -8,7 +8,6 @@
      frac/lids/block.go             GetExtForRegistry  /  frac/sealed_loader.go loadLIDsBlocksTable
      frac/lids/table.go             Table (all functions)
      frac/lids/iterator_desc.go, iterator_asc.go   (a drained iterator = list of all Next() results)
-     frac/sealed_index.go           sealedIDsIndex.LessOrEqual (block skipping through MinBlockIDs)
      sort.Search                    transcribed literally (binary search with fuel)
    Data are N (uint32 / uint64 values), positions and lengths are nat. *)
 From Coq Require Import List Bool Arith NArith ZArith.
@@ -346,25 +345,8 @@ Fixpoint chop {A} (fuel : nat) (size : nat) (l : list A) : option (list (list A)
   end.
 Definition id_blocks {A} (size : nat) (ids : list A) : option (list (list A)) := chop (S (length ids)) size ids.
 
-(* seq.ID = (MID, RID); seq.Less / LessOrEqual *)
+(* seq.ID = (MID, RID) *)
 Definition sid := (N * N)%type.
-Definition sid_le (a b : sid) : bool :=
-  if (fst a =? fst b)%N then (snd a <=? snd b)%N else (fst a <? fst b)%N.
 Definition sid0 : sid := (0%N, 0%N).
-(* DiskIDsBlock.getMinID: the last ID of the block (IDs are sorted descending) *)
+(* DiskIDsBlock.getMinID: the last ID of the block (IDs are sorted descending) -> registry ext words *)
 Definition min_ids (blocks : list (list sid)) : list sid := map (fun b => last b sid0) blocks.
-
-(* sealedIDsIndex.LessOrEqual(lid, id) over blocks of [per] IDs: the registry minima decide without
-   loading a block where they can; otherwise the MID block (and the RID block) is read.
-   maxu64 = math.MaxUint64 *)
-Definition maxu64 : N := 18446744073709551615.
-Definition less_or_equal (per : nat) (blocks : list (list sid)) (mins : list sid) (total : nat)
-           (lid : nat) (id : sid) : bool :=
-  if total <=? lid then true else
-  let bi := lid / per in
-  if negb (sid_le (nth bi mins sid0) id) then false else
-  if (0 <? bi) && sid_le (nth (bi - 1) mins sid0) id then true else
-  let stored := nth (lid - bi * per) (nth bi blocks []) sid0 in   (* GetMID / GetRID through the unpack cache *)
-  if (fst stored =? fst id)%N then
-    (if (snd id =? maxu64)%N then true else (snd stored <=? snd id)%N)
-  else (fst stored <? fst id)%N.
